@@ -34,6 +34,11 @@ CHECKS = {
    text='Seeded exploration: ROM digests, register/cell ranges, clock monotonicity and the 128K mapping (reference pager driven by the replica\'s own OUT log) are checked after every event of runs that aim stores and paging writes at the boundaries.',
    note='C-side bank pointers are observed through executed loads and the Python-visible Memory object, not private fields.',
    ref='DESIGN.md section 5, C08'),
+ 'C17': dict(
+   technique='deterministic simulation of operation histories: model-based stateful testing of two replicas (real AsmWriter and HtmlWriter) against a reference evaluator (RefMacro), compared after every step, with history shrinking',
+   text='Seeded exploration of macro histories: state-changing steps (#LET incl. dictionaries, #POKES, #PUSHS/#POPS, #DEF) followed by reading terms generated from the macro grammar (nesting <= 4, every delimiter form, arithmetic over all documented operators and bases, replacement fields); both writers must produce the documented text and the same text as each other (HTML after unescaping), and both memories must equal the model memory.',
+   note='No clock or fault exists for this property; histories and two replicas are the explored dimensions. RefMacro generates only terms whose meaning the documentation fixes. Hypothesis is not used: histories are plain term-tree lists in the common replay format (see DESIGN.md).',
+   ref='DESIGN.md section 5, C17'),
  'C19': dict(
    technique='deterministic simulation: plain/contended twin engines stepped from identical states at seeded frame positions; delay oracle = RefULA folded over RefZ80 bus cycles',
    text='Seeded exploration over dispatch slots x frame positions x address placements: each contended step must equal its plain twin (T/MEMPTR aside), never be faster, and be slower by exactly the reference ULA delay for the reference bus-cycle list.',
